@@ -87,6 +87,10 @@ func shapes(rng *hx.Rng, tok string) []shape {
 		{"no-from", "To: someone@example.com\r\nSubject: " + tok + "\r\n\r\n" + m(1) + "\r\n", nil, false},
 		{"cc-only", "From: sender@example.org\r\nCc: someone@example.com\r\nSubject: " + tok + "\r\n\r\n" + m(1) + "\r\n", []string{m(1)}, true},
 		{"not-a-message", tok + " no header at all\r\n", nil, false},
+		// lines longer than any read buffer, with dots where a buffered reader's pieces begin (offsets 4096 and 8192 of the
+		// line) and a line of 4096k+1 octets that ends in a dot: content, not the end of data and not stuffing
+		{"long-lines-dots-at-buffer-bounds", head + "\r\n" + strings.Repeat("x", 4096) + "..d" + m(1) + "\r\n" + strings.Repeat("y", 8192) + ".\r\n" + m(2) + " after\r\n" + strings.Repeat("z", 4096) + ".\r\n" + m(3) + " last\r\n",
+			[]string{"xxx..d" + m(1), "yyy.\r\n" + m(2), "zzz.\r\n" + m(3)}, true},
 	}
 }
 
